@@ -920,7 +920,9 @@ func (t *Thread) accessCell(c *Cell, write bool, pos token.Pos) {
 	if c.guard != nil {
 		e.checkGuard(t, c, write, pos)
 	}
-	if !e.multi {
+	if !e.multi || e.inPkgInit > 0 {
+		// package initialisers run before main in a real program: their accesses happen-before
+		// everything (the engine merely runs them lazily, on whichever thread touches the package first)
 		return
 	}
 	clk := t.vc
